@@ -17,28 +17,38 @@ template<class Graph> struct Approx {
     typedef typename boost::property_traits<WMap>::value_type W;
     typedef std::back_insert_iterator<std::list<std::list<Edge>>> OutIt;
 
-    static void call(const InGraph &in, const std::string &algo, const char *wt, long k, const std::string &meta) {
+    // the entry points take any output iterator: a back_inserter (every copy of it appends to the same list) and a positional
+    // iterator into a pre-sized vector (a copy that is not advanced overwrites), as a caller that knows m - n + c would use
+    template<class It> static bool invoke(const std::string &algo, const Graph &g, WMap &wm, long k, It out, W &ret) {
+        if (algo == "approx_signed") ret = parmcb::approx_mcb_sva_signed(g, wm, (std::size_t) k, out);
+        else if (algo == "approx_fvs") ret = parmcb::approx_mcb_sva_fvs_trees(g, wm, (std::size_t) k, out);
+        else if (algo == "approx_iso") ret = parmcb::approx_mcb_sva_iso_trees(g, wm, (std::size_t) k, out);
+#ifdef PARMCB_HAVE_TBB
+        else if (algo == "approx_signed_tbb") ret = parmcb::approx_mcb_sva_signed_tbb(g, wm, (std::size_t) k, out);
+        else if (algo == "approx_fvs_tbb") ret = parmcb::approx_mcb_sva_fvs_trees_tbb(g, wm, (std::size_t) k, out);
+        else if (algo == "approx_iso_tbb") ret = parmcb::approx_mcb_sva_iso_trees_tbb(g, wm, (std::size_t) k, out);
+#endif
+        else return false;
+        return true;
+    }
+
+    static void call(const InGraph &in, const std::string &algo, const char *wt, long k, const std::string &meta, bool positional = false) {
         Built<Graph> b; build(in, b);
         J c; c.s("e", "Call").s("algo", algo).s("wt", wt).i("id", in.id).i("n", in.n).raw("edges", edges_json(in)).i("den", in.den).i("k", k).i("tol", 0);
-        if (!meta.empty()) c.raw("meta", meta);
+        if (!meta.empty()) c.raw("meta", meta); else if (positional) c.raw("meta", "{\"sink\":\"positional\"}");
         emit(c.str());
         const Graph &g = b.g;
         WMap wm = boost::get(boost::edge_weight, b.g);
         std::list<std::list<Edge>> cycles;
+        std::vector<std::list<Edge>> slots(positional ? in.edges.size() + 8 : 0);
         bool threw = false; std::string what;
         W ret = W();
         try {
-            if (algo == "approx_signed") ret = parmcb::approx_mcb_sva_signed(g, wm, (std::size_t) k, std::back_inserter(cycles));
-            else if (algo == "approx_fvs") ret = parmcb::approx_mcb_sva_fvs_trees(g, wm, (std::size_t) k, std::back_inserter(cycles));
-            else if (algo == "approx_iso") ret = parmcb::approx_mcb_sva_iso_trees(g, wm, (std::size_t) k, std::back_inserter(cycles));
-#ifdef PARMCB_HAVE_TBB
-            else if (algo == "approx_signed_tbb") ret = parmcb::approx_mcb_sva_signed_tbb(g, wm, (std::size_t) k, std::back_inserter(cycles));
-            else if (algo == "approx_fvs_tbb") ret = parmcb::approx_mcb_sva_fvs_trees_tbb(g, wm, (std::size_t) k, std::back_inserter(cycles));
-            else if (algo == "approx_iso_tbb") ret = parmcb::approx_mcb_sva_iso_trees_tbb(g, wm, (std::size_t) k, std::back_inserter(cycles));
-#endif
-            else { emit(J().s("e", "Crash").s("what", "unknown algo " + algo).str()); return; }
+            bool known = positional ? invoke(algo, g, wm, k, slots.begin(), ret) : invoke(algo, g, wm, k, std::back_inserter(cycles), ret);
+            if (!known) { emit(J().s("e", "Crash").s("what", "unknown algo " + algo).str()); return; }
         } catch (const std::exception &ex) { threw = true; what = ex.what(); }
         catch (...) { threw = true; what = "non-std exception"; }
+        if (positional) for (auto &sl : slots) if (!sl.empty()) cycles.push_back(sl);      // what the caller finds in its vector
         // the call has returned: project what the caller holds
         for (auto &cyc : cycles) {
             std::vector<long> idx;
@@ -100,7 +110,10 @@ int main(int argc, char **argv) {
             alarm(60);
             try {
                 if (do_spanner) { if (k >= 1) { if (isint) Approx<GraphI>::spanner(g, "int", k); else Approx<GraphD>::spanner(g, "double", k); } }
-                else for (auto &a : algos) { if (isint) Approx<GraphI>::call(g, a, "int", k, ""); else Approx<GraphD>::call(g, a, "double", k, ""); }
+                else for (auto &a : algos) {
+                    if (isint) Approx<GraphI>::call(g, a, "int", k, ""); else Approx<GraphD>::call(g, a, "double", k, "");
+                    if (k >= 1 && (g.id + k) % 2 == 0) { if (isint) Approx<GraphI>::call(g, a, "int", k, "", true); else Approx<GraphD>::call(g, a, "double", k, "", true); }
+                }
             } catch (const std::exception &ex) {
                 emit(J().s("e", "Crash").s("what", std::string("exception: ") + ex.what()).i("id", g.id).i("n", g.n).raw("edges", edges_json(g)).i("den", g.den).i("k", k).str());
             } catch (...) {
